@@ -1,0 +1,35 @@
+//go:build verif
+
+// Package verifhook re-exports a few internal entry points for the external
+// verification harness. It is compiled only with the "verif" build tag and
+// adds no behaviour of its own.
+package verifhook
+
+import (
+	"github.com/nalgeon/redka"
+	"github.com/nalgeon/redka/internal/command"
+	"github.com/nalgeon/redka/internal/redis"
+	"github.com/nalgeon/redka/internal/server"
+)
+
+// Redka is the uniform view of the repositories that the command layer uses,
+// backed either by a database handle or by a transaction.
+type Redka = redis.Redka
+
+// Cmd is a parsed wire command.
+type Cmd = redis.Cmd
+
+// Writer is the reply writer a command runs against.
+type Writer = redis.Writer
+
+// DB returns the uniform view of a database handle.
+func DB(db *redka.DB) Redka { return redis.RedkaDB(db) }
+
+// Tx returns the uniform view of a transaction.
+func Tx(tx *redka.Tx) Redka { return redis.RedkaTx(tx) }
+
+// Parse parses a wire command exactly as the server does.
+func Parse(args [][]byte) (Cmd, error) { return command.Parse(args) }
+
+// NewServer creates a server instance (not started).
+func NewServer(net, addr string, db *redka.DB) *server.Server { return server.New(net, addr, db) }
